@@ -205,7 +205,10 @@ class JsonResource(Resource):
             self.append(inst)
 
         if self.use_uuid:
+            # the object keeps the uuid it is registered under (as after an
+            # XMI load): references to it are written with this uuid
             self.uuid_dict[d['uuid']] = inst
+            inst._internal_id = d['uuid']
 
         eattributes = []
         containments = []
